@@ -283,7 +283,8 @@ func cmdRun(args []string) int {
 			for _, tag := range tags {
 				w := ex.ReachModels[tag]
 				out := nativeRes[w]
-				if strings.HasPrefix(out, "ok|") && containsTag(out, tag) {
+				// a witness taken in the middle of a path may run into a later assumption natively
+				if (strings.HasPrefix(out, "ok|") || strings.HasPrefix(out, "assume-failed|")) && containsTag(out, tag) {
 					hr.NativeReplays++
 					totalReplays++
 				} else {
@@ -519,8 +520,8 @@ func nativeBatch(h HarnessSpec, items []*sym.Violation) map[*sym.Violation]strin
 			outcome = rest
 		}
 		if it := byFile[file]; it != nil {
-			if outcome == "ok" {
-				res[it] = "ok|" + reached
+			if outcome == "ok" || outcome == "assume-failed" {
+				res[it] = outcome + "|" + reached
 			} else {
 				res[it] = outcome
 			}
